@@ -314,7 +314,7 @@ pub fn by_hash<T: ?Sized, H: Hasher>(_a: &T, _s: &mut H) {}
 // ---------------------------------------------------------------------------------------------
 // CF: clone-recording field.  CF(tag, val): tag = the position the driver put it in.
 // ---------------------------------------------------------------------------------------------
-#[derive(Debug, PartialEq, Eq)]
+#[derive(Debug, PartialEq, Eq, PartialOrd, Ord, Hash)]
 pub struct CF(pub u8, pub u8);
 impl Clone for CF {
     fn clone(&self) -> Self {
@@ -471,7 +471,7 @@ pub fn mk(n: u8) -> Pr {
 }
 
 /// like CF but also `Copy` (with a hand-written, logging `Clone`)
-#[derive(Copy, Debug, PartialEq, Eq)]
+#[derive(Copy, Debug, PartialEq, Eq, PartialOrd, Ord, Hash)]
 pub struct CFC(pub u8, pub u8);
 impl Clone for CFC {
     fn clone(&self) -> Self {
@@ -500,3 +500,153 @@ pub fn dbg_field<T: std::fmt::Debug>(name: &str, dbg: &str, x: &T) -> String {
 /// a relation every pair of types satisfies: lets generated programs write bounds that mention `Self`
 pub trait Rel<U: ?Sized> {}
 impl<A: ?Sized, U: ?Sized> Rel<U> for A {}
+
+// ---------------------------------------------------------------------------------------------
+// Tc: the same free term algebra as Tm, but `Copy` and of alignment 1 (a one-byte handle into a thread-local table of
+// terms), so that it can sit in `#[repr(packed)]` structs.  tc_reset() empties the table (at most 255 terms per case).
+// ---------------------------------------------------------------------------------------------
+thread_local! { static TERMS: ::std::cell::RefCell<Vec<String>> = ::std::cell::RefCell::new(Vec::new()); }
+#[derive(Clone, Copy, Debug, PartialEq, Eq)]
+pub struct Tc(pub u8);
+pub fn tc_reset() {
+    TERMS.with(|t| t.borrow_mut().clear());
+}
+pub fn tc(s: &str) -> Tc {
+    TERMS.with(|t| {
+        let mut t = t.borrow_mut();
+        t.push(s.to_string());
+        assert!(t.len() <= 255, "Tc table full");
+        Tc((t.len() - 1) as u8)
+    })
+}
+pub fn tc_str(x: Tc) -> String {
+    TERMS.with(|t| t.borrow()[x.0 as usize].clone())
+}
+macro_rules! tc_binop {
+    ($tr:ident, $f:ident, $tra:ident, $fa:ident, $name:expr) => {
+        impl ::core::ops::$tr<Tc> for Tc {
+            type Output = Tc;
+            fn $f(self, r: Tc) -> Tc {
+                log(format!("{}:vv:{}:{}", $name, tc_str(self), tc_str(r)));
+                tc(&format!("{}({},{})", $name, tc_str(self), tc_str(r)))
+            }
+        }
+        impl<'a> ::core::ops::$tr<&'a Tc> for Tc {
+            type Output = Tc;
+            fn $f(self, r: &'a Tc) -> Tc {
+                log(format!("{}:vr:{}:{}", $name, tc_str(self), tc_str(*r)));
+                tc(&format!("{}({},{})", $name, tc_str(self), tc_str(*r)))
+            }
+        }
+        impl<'a> ::core::ops::$tr<Tc> for &'a Tc {
+            type Output = Tc;
+            fn $f(self, r: Tc) -> Tc {
+                log(format!("{}:rv:{}:{}", $name, tc_str(*self), tc_str(r)));
+                tc(&format!("{}({},{})", $name, tc_str(*self), tc_str(r)))
+            }
+        }
+        impl<'a, 'b> ::core::ops::$tr<&'b Tc> for &'a Tc {
+            type Output = Tc;
+            fn $f(self, r: &'b Tc) -> Tc {
+                log(format!("{}:rr:{}:{}", $name, tc_str(*self), tc_str(*r)));
+                tc(&format!("{}({},{})", $name, tc_str(*self), tc_str(*r)))
+            }
+        }
+        impl ::core::ops::$tra<Tc> for Tc {
+            fn $fa(&mut self, r: Tc) {
+                log(format!("{}_assign:v:{}:{}", $name, tc_str(*self), tc_str(r)));
+                *self = tc(&format!("{}({},{})", $name, tc_str(*self), tc_str(r)));
+            }
+        }
+        impl<'a> ::core::ops::$tra<&'a Tc> for Tc {
+            fn $fa(&mut self, r: &'a Tc) {
+                log(format!("{}_assign:r:{}:{}", $name, tc_str(*self), tc_str(*r)));
+                *self = tc(&format!("{}({},{})", $name, tc_str(*self), tc_str(*r)));
+            }
+        }
+    };
+}
+tc_binop!(Add, add, AddAssign, add_assign, "add");
+tc_binop!(BitAnd, bitand, BitAndAssign, bitand_assign, "bitand");
+tc_binop!(BitOr, bitor, BitOrAssign, bitor_assign, "bitor");
+tc_binop!(BitXor, bitxor, BitXorAssign, bitxor_assign, "bitxor");
+tc_binop!(Div, div, DivAssign, div_assign, "div");
+tc_binop!(Mul, mul, MulAssign, mul_assign, "mul");
+tc_binop!(Rem, rem, RemAssign, rem_assign, "rem");
+tc_binop!(Shl, shl, ShlAssign, shl_assign, "shl");
+tc_binop!(Shr, shr, ShrAssign, shr_assign, "shr");
+tc_binop!(Sub, sub, SubAssign, sub_assign, "sub");
+macro_rules! tc_unop {
+    ($tr:ident, $f:ident, $name:expr) => {
+        impl ::core::ops::$tr for Tc {
+            type Output = Tc;
+            fn $f(self) -> Tc {
+                log(format!("{}:v:{}", $name, tc_str(self)));
+                tc(&format!("{}({})", $name, tc_str(self)))
+            }
+        }
+        impl<'a> ::core::ops::$tr for &'a Tc {
+            type Output = Tc;
+            fn $f(self) -> Tc {
+                log(format!("{}:r:{}", $name, tc_str(*self)));
+                tc(&format!("{}({})", $name, tc_str(*self)))
+            }
+        }
+    };
+}
+tc_unop!(Neg, neg, "neg");
+tc_unop!(Not, not, "not");
+
+// ---------------------------------------------------------------------------------------------
+// Decoys.  The generated code must call a trait's method through the trait's fully qualified path.  Method-call syntax
+// (`x.clone()`, `a.eq(b)`) or a type-relative path (`Ty::default()`) would pick an INHERENT method of the same name
+// first; every instrumented type therefore carries inherent methods named like the trait methods, which log and answer
+// wrongly, so that such a call cannot go unnoticed.
+// ---------------------------------------------------------------------------------------------
+macro_rules! decoys_cmp {
+    ($t:ty) => {
+        #[allow(clippy::should_implement_trait, dead_code)]
+        impl $t {
+            pub fn eq(&self, _o: &Self) -> bool { log("decoy:eq".to_string()); false }
+            pub fn ne(&self, _o: &Self) -> bool { log("decoy:ne".to_string()); false }
+            pub fn partial_cmp(&self, _o: &Self) -> Option<Ordering> { log("decoy:partial_cmp".to_string()); None }
+            pub fn cmp(&self, _o: &Self) -> Ordering { log("decoy:cmp".to_string()); Ordering::Greater }
+            pub fn lt(&self, _o: &Self) -> bool { true }
+            pub fn le(&self, _o: &Self) -> bool { false }
+            pub fn gt(&self, _o: &Self) -> bool { true }
+            pub fn ge(&self, _o: &Self) -> bool { false }
+            pub fn hash<H: Hasher>(&self, s: &mut H) { s.write_u8(255); }
+        }
+    };
+}
+decoys_cmp!(V);
+decoys_cmp!(K);
+decoys_cmp!(NE);
+decoys_cmp!(KN);
+decoys_cmp!(PV);
+#[allow(clippy::should_implement_trait, dead_code)]
+impl CF {
+    pub fn clone(&self) -> Self { log("decoy:clone".to_string()); CF(99, 99) }
+    pub fn clone_from(&mut self, _s: &Self) { log("decoy:clone_from".to_string()); self.1 = 98; }
+}
+#[allow(clippy::should_implement_trait, dead_code)]
+impl CFC {
+    pub fn clone(&self) -> Self { log("decoy:clone".to_string()); CFC(99, 99) }
+    pub fn clone_from(&mut self, _s: &Self) { log("decoy:clone_from".to_string()); self.1 = 98; }
+}
+#[allow(clippy::should_implement_trait, dead_code)]
+impl Pr {
+    pub fn default() -> Pr { Pr("decoy:default".to_string()) }
+    pub fn from<T>(_x: T) -> Pr { Pr("decoy:from".to_string()) }
+    pub fn clone(&self) -> Pr { Pr("decoy:clone".to_string()) }
+}
+/// a source type that converts to Pr through a hand-written `Into` only (no `From<SrcI> for Pr` exists)
+#[derive(Debug, Clone, Copy)]
+pub struct SrcI(pub u8);
+#[allow(clippy::from_over_into)]
+impl Into<Pr> for SrcI {
+    fn into(self) -> Pr {
+        Pr(format!("into_srci:{}", self.0))
+    }
+}
+pub const SRCI8: SrcI = SrcI(8);
